@@ -483,6 +483,50 @@ class Analysis:
             hi += c * (hi_m if c > 0 else lo_m)
         return hi
 
+    def guarded_atoms(self, st):
+        """payload atoms of options that may be None and whose payload has not been extracted in this state: facts about them are
+        guarded facts ("if the option is Some") and must not be used - also after the option itself has been overwritten"""
+        pa = getattr(self, 'payload_atoms', None)
+        if not pa:
+            return ()
+        live = set()
+        for v in st.vals.values():
+            k = v[0]
+            if k == 'opt':
+                if v[1] == 'Some' and v[2] is not None:
+                    for m in v[2]:
+                        live.update(m)
+            else:
+                for x in v[1:]:
+                    if isinstance(x, dict):
+                        for m in x:
+                            live.update(m)
+        return pa - live
+
+    def poly_hi(self, p, st):
+        """constant upper bound of p in state st: interval arithmetic over the atoms' best constant bounds (type range or a fact `c*a + k <= 0`)"""
+        his = {}
+        for a in atoms_of(p):
+            r = self.ranges.get(a)
+            if r is None or r[0] < 0:
+                return None
+            his[a] = Fraction(r[1])
+        for f_ in st.facts.values():
+            if len(f_) <= 2:
+                ks = [m for m in f_ if m != ()]
+                if len(ks) == 1 and len(ks[0]) == 1 and ks[0][0] in his and f_[ks[0]] > 0:
+                    b_ = -f_.get((), Fraction(0)) / f_[ks[0]]
+                    if b_ < his[ks[0][0]]:
+                        his[ks[0][0]] = b_
+        hi = Fraction(0)
+        for m, c in p.items():
+            if c > 0:
+                t = Fraction(1)
+                for a in m:
+                    t *= his[a]
+                hi += c * t
+        return hi
+
     def prove(self, st, goal, extra=()):
         if not goal:
             return True
@@ -494,6 +538,11 @@ class Analysis:
         # relevance: facts connected to the goal through shared atoms (3 hops, at most 70)
         rel = set(atoms_of(goal))
         pool = dict(st.facts)
+        # a fact about the payload of an Option that is not known to be Some is a *guarded* fact (it holds if the option is Some):
+        # it may only be used once the payload is a definite value (tag Some, or the payload has been extracted by unwrap / a match)
+        guarded = self.guarded_atoms(st)
+        if guarded:
+            pool = {k: f for k, f in pool.items() if not (fact_atoms(k, f) & guarded)}
         for e in extra:
             pool[ckey(e)] = e
         chosen = {}
@@ -698,6 +747,11 @@ class Analysis:
                         # x & m is a multiple of 2^k (k = trailing zero bits of m): non-zero means >= 2^k
                         self.__dict__.setdefault('gran', {})[name] = mask & -mask
                     return ('i', at)
+            if base == 'Shl' and a is not None and cval(c) is not None and 0 <= cval(c) < 63:
+                tb_ = int_bits(self.local_ty(l))
+                r = {m: v * (1 << cval(c)) for m, v in a.items()}
+                if tb_ and not tb_[1] and self.prove(st, padd(r, const(MAXV[tb_[0]]), -1)):
+                    return ('i', r)         # no bit is shifted out: x << k = x * 2^k
             if base in ('Shr', 'Div') and a is not None:
                 name = 'S%d_%d' % (b, l)
                 self.kill_atom(st, name)
@@ -810,6 +864,19 @@ class Analysis:
         elif UNWRAP_RX.match(name) and args and args[0] is not None and args[0][0] == 'opt':
             if args[0][2] is not None:
                 res = ('i', args[0][2])
+            # after a successful unwrap the option is Some (failure is a panic: its own obligation)
+            if is_place_op(c.args[0]) and not c.args[0]['place']['p']:
+                src = c.args[0]['place']['l']
+                for _ in range(4):
+                    v0 = st.vals.get(src)
+                    if v0 is not None and v0[0] == 'opt' and src in self.named:
+                        st.vals[src] = ('opt', 'Some', v0[2])
+                        break
+                    ds = self.b.defs.get(src, [])
+                    if len(ds) == 1 and ds[0][0] == 'stmt' and ds[0][3]['rv']['rv'] == 'use' and is_place_op(ds[0][3]['rv']['op']) and not ds[0][3]['rv']['op']['place']['p']:
+                        src = ds[0][3]['rv']['op']['place']['l']
+                    else:
+                        break
         elif RANGE_NEXT_RX.match(name) and args and args[0] is not None and args[0][0] == 'ref':
             rl = args[0][1]
             rv = st.vals.get(rl)
@@ -851,6 +918,7 @@ class Analysis:
         if m:
             name = 'C%d_%d' % (b, dl)
             self.kill_atom(st, name)
+            self.__dict__.setdefault('payload_atoms', set()).add(name)
             return ('opt', 'Top', self.atom(name, m.group(1)))
         m = re.match(r'^std::ops::ControlFlow<.*, ([ui](?:8|16|32|64|size))>$', ty)
         if m and c.callee.endswith('Try>::branch'):
@@ -989,12 +1057,14 @@ class Analysis:
                 elif dv is not None and dv[0] == 'discr':
                     ov = s2.vals.get(dv[1])
                     if ov is not None and ov[0] in ('opt', 'optnext'):
+                        # discriminant of the payload-carrying variant: Some = 1 for Option, Ok / Continue = 0 for Result / ControlFlow
+                        pd = 1 if self.local_ty(dv[1]).startswith('std::option::Option') else 0
                         some = None
                         if val is not None:
-                            some = (val == 1)
-                        elif set(t['vals']) == {0}:
+                            some = (val == pd)
+                        elif set(t['vals']) == {1 - pd}:
                             some = True
-                        elif set(t['vals']) == {1}:
+                        elif set(t['vals']) == {pd}:
                             some = False
                         if ov[0] == 'optnext':
                             if some is True:
@@ -1022,8 +1092,8 @@ class Analysis:
         return out
 
     # -- joins
-    def join(self, B, preds):
-        """preds: list of states flowing into B"""
+    def join(self, B, preds, back=None):
+        """preds: list of states flowing into B; back: for a loop head, flags telling which of them are back edges"""
         visit = self.visits.get(B, 0)
         new = RState()
         subs = []           # per pred: phi atom -> poly
@@ -1073,6 +1143,7 @@ class Analysis:
                     phi = 'J%d_%dp' % (B, l)
                     m = re.match(r'^std::option::Option<([ui](?:8|16|32|64|size))>$', self.local_ty(l))
                     at = self.atom(phi, m.group(1) if m else None)
+                    self.__dict__.setdefault('payload_atoms', set()).add(phi)
                     for i, v in enumerate(vs):
                         if v[2] is not None:
                             subs[i][phi] = v[2]
@@ -1101,7 +1172,16 @@ class Analysis:
         if prev is not None:
             for k, f in prev.facts.items():
                 cands[k] = f
-        if visit < 3:
+        # Houdini at loop heads: when the shape of the head state changes (first join, or new join variables appeared) the candidates are
+        # generated and *assumed*: checked against the entry edges only; afterwards the set only shrinks, filtered against all edges
+        # (the back edges have then been computed under the assumption).  The fixpoint keeps exactly the inductive ones.
+        generate = visit < 3
+        optimistic = False
+        if back is not None and any(back):
+            shape_changed = prev is None or prev.vals != new.vals
+            generate = shape_changed and visit < 8
+            optimistic = generate
+        if generate:
             for i, p in enumerate(preds):
                 inv = self.inverse(subs[i])
                 for f in p.facts.values():
@@ -1116,6 +1196,21 @@ class Analysis:
                     if p is not None:
                         for g in (padd(A(phi), p, -1), padd(p, A(phi), -1)):
                             cands.setdefault(ckey(norm(g)), norm(g))
+            # constant bound of a join variable: the largest upper bound its value has on any incoming edge (from the atoms' ranges)
+            allphis = set()
+            for s_ in subs:
+                allphis |= {phi for phi, p in s_.items() if p is not None}
+            for phi in allphis:
+                his = []
+                for i, s_ in enumerate(subs):
+                    p = s_.get(phi)
+                    if p is None:
+                        continue
+                    his.append(self.poly_hi(p, preds[i]))
+                if his and all(h_ is not None for h_ in his):
+                    g = padd(A(phi), const(max(his)), -1)
+                    if max(his) < (1 << 40):
+                        cands.setdefault(ckey(norm(g)), norm(g))
             for g in (self.increment_candidates(preds, subs) if is_head else []):
                 cands.setdefault(ckey(norm(g)), norm(g))
             for g in (self.template_candidates(new) if is_head else []):
@@ -1143,6 +1238,9 @@ class Analysis:
                 if any(a in subs[i] and subs[i][a] is None for a in at):
                     inst.append(None)
                     continue        # vacuous for this pred (payload of a None)
+                if optimistic and back[i] and k not in (prev.facts if prev is not None else {}):
+                    inst.append(None)
+                    continue        # newly generated candidate: assumed for this iteration, verified on the next
                 g = psubst(f, {a: s for a, s in subs[i].items() if s is not None})
                 inst.append(g)
                 if ckey(g) in p.facts:
@@ -1430,7 +1528,8 @@ class Analysis:
             ins = self.in_edges(h)
             if not ins:
                 return
-            st = self.join(h, ins) if len(ins) > 1 else ins[0].copy()
+            pids = [p for p in self.preds.get(h, []) if (p, h) in self.out_edges]
+            st = self.join(h, ins, back=[p in lp for p in pids]) if len(ins) > 1 else ins[0].copy()
             old = self.in_states.get(h) if it > 0 else None
             if old is not None and old.same(st):
                 if DEBUG:
